@@ -106,6 +106,26 @@ def run(ctx, F):
               found=found, where=where(tr), key="C36.copy-once|trace")
     check_callers(ctx, F, "C36.copy-once", T + "copy", {tr.q: "tracing"}, min_sites=1)
     tam = F.fn(L + "test_and_mark")
+    # the marking CAS replaces BOTH state bits (mark and nursery) by the wanted value: an object marked in a full-heap GC leaves the nursery
+    cx = [c for c in live_calls(tam) if c.name.startswith("compare_exchange")]
+    oknv = len(cx) == 1 and len(cx[0].args) >= 4
+    foundnv = "compare_exchange sites=%d" % len(cx)
+    if oknv:
+        nv = simp(tam.flow.arg_tree(cx[0], 3))
+        old = show(simp(tam.flow.arg_tree(cx[0], 2)))
+        full = (F.consts.get("policy::largeobjectspace::MARK_BIT", {}).get("v"), F.consts.get("policy::largeobjectspace::NURSERY_BIT", {}).get("v"))
+        foundnv = show(nv)[-120:]
+        oknv = False
+        if nv and nv[0] == "bin" and nv[1] == "BitOr" and None not in full:
+            sides = [simp(nv[2]), simp(nv[3])]
+            val = [x for x in sides if x == ("arg", 3)]
+            keep = [x for x in sides if x and x[0] == "bin" and x[1] == "BitAnd"]
+            if len(val) == 1 and len(keep) == 1:
+                ks = [simp(keep[0][2]), simp(keep[0][3])]
+                olds = [x for x in ks if show(x) == old]
+                nots = [x for x in ks if x and x[0] == "un" and x[1] == "Not" and const_arg(x[2]) == (full[0] | full[1])]
+                oknv = len(olds) == 1 and len(nots) == 1
+    ctx.judge(oknv, "C36.copy-once", "marking rewrites both the mark bit and the nursery bit", expected="CAS(old -> (old & !(MARK_BIT | NURSERY_BIT)) | value)", found=foundnv, where=where(tam), key="C36.copy-once|new-value")
     rows = ret_table(tam)
     falses = [(b, t, g) for b, t, g in rows if const_arg(t) is False]
     trues = [(b, t, g) for b, t, g in rows if const_arg(t) is True]
